@@ -274,7 +274,8 @@ type Front struct {
 	Pub  *ipnisync.Publisher
 	ID   Ident
 	St   *Store
-	srv  *httptest.Server
+	srv  *httptest.Server // real TCP (only when fault fidelity at the socket level matters)
+	msrv *memServer       // in-memory network (default)
 	p2ph *libp2phttp.Host
 	Addr multiaddr.Multiaddr
 	URL  *url.URL
@@ -298,6 +299,9 @@ const (
 
 func (m FrontMode) String() string { return [...]string{"plain", "legacy-nopath", "libp2phttp-discovery"}[m] }
 
+// RealTCPFronts makes plain/legacy fronts listen on real sockets instead of the in-memory network.
+var RealTCPFronts = false
+
 func NewFront(c *vf.Ctx, id Ident, st *Store, mode FrontMode, topic string) (*Front, error) {
 	f := &Front{c: c, ID: id, St: st, occur: map[string]int{}}
 	opts := []ipnisync.Option{ipnisync.WithStartServer(false), ipnisync.WithHTTPListenAddrs("http://127.0.0.1:0")}
@@ -312,8 +316,15 @@ func NewFront(c *vf.Ctx, id Ident, st *Store, mode FrontMode, topic string) (*Fr
 	switch mode {
 	case MountPlain, MountLegacy:
 		f.legacy = mode == MountLegacy
-		f.srv = httptest.NewServer(f)
-		u, _ := url.Parse(f.srv.URL)
+		var surl string
+		if RealTCPFronts {
+			f.srv = httptest.NewServer(f)
+			surl = f.srv.URL
+		} else {
+			f.msrv = newMemServer(f)
+			surl = f.msrv.URL
+		}
+		u, _ := url.Parse(surl)
 		f.URL = u
 		f.Addr, err = maurl.FromURL(u)
 		if err != nil {
@@ -343,6 +354,9 @@ func (f *Front) Close() {
 	if f.srv != nil {
 		f.srv.CloseClientConnections()
 		f.srv.Close()
+	}
+	if f.msrv != nil {
+		f.msrv.Close()
 	}
 	if f.p2ph != nil {
 		f.p2ph.Close()
@@ -434,7 +448,7 @@ func (f *Front) ServeHTTP(w http.ResponseWriter, r *http.Request) {
 				conn, _, err := hj.Hijack()
 				if err == nil {
 					if tc, ok := conn.(*net.TCPConn); ok {
-						tc.SetLinger(0)
+						tc.SetLinger(0) // RST on real sockets; an in-memory connection is simply cut
 					}
 					conn.Close()
 				}
